@@ -331,6 +331,47 @@ def m_index(I, st, info, args, depth):
     return out
 
 
+def _abs_range(ptr):
+    """(cell, prefix path, start, end) when ptr designates a byte range of a buffer cell (nested ranges are made absolute)"""
+    path = list(ptr.path)
+    a = b = None
+    while path and isinstance(path[-1], tuple) and path[-1] and path[-1][0] == "range":
+        _r, x, y = path.pop()
+        if a is None:
+            a, b = x, y
+        else:
+            a, b = x.add(a), x.add(b)
+    return ptr.cell, tuple(path), a, b
+
+
+@pmodel(r"^core::slice::<impl \[T\]>::(split_at_mut|split_at_mut_checked)$")
+def m_split_at_mut(I, st, info, args, depth):
+    p = I.resolve(st, args[0])
+    g = 0
+    while isinstance(p, Ptr) and isinstance(I.resolve(st, I.load(st, p)), Ptr) and g < 4:
+        p = I.resolve(st, I.load(st, p))
+        g += 1
+    mid = I.resolve(st, args[1])
+    if not (isinstance(p, Ptr) and isinstance(mid, Aff)):
+        return None
+    cell, pre, a, b = _abs_range(p)
+    whole = deref(I, st, Ptr(cell, pre))
+    if not isinstance(whole, Seq):
+        return None
+    if a is None:
+        a, b = Aff(0), whole.length
+    ln = b.sub(a)
+    checked = info["tdef"].endswith("checked")
+    out = []
+    for s2, t in MD.fork_bool(I, st, I.compare(st, "Le", mid, ln)):
+        if t:
+            tup = Struct("(tuple)", None, {"0": Ptr(cell, pre + (("range", a, a.add(mid)),)), "1": Ptr(cell, pre + (("range", a.add(mid), b),))})
+            out.append((s2, "return", some(tup) if checked else tup))
+        else:
+            out.append((s2, "return", none()) if checked else (s2, "panic", ("split_at_mut", info["fn"], info["ln"])))
+    return out
+
+
 @pmodel(r"^core::slice::<impl \[T\]>::(split_at|split_at_checked)$")
 def m_split_at(I, st, info, args, depth):
     s_ = _bytes_seq(I, st, args[0])
